@@ -601,11 +601,15 @@ def run(ctx):
                             ctx.count('copy_false:operates_on_argument')
                         elif has_copy_false:
                             dyn_mut_cf.setdefault(nm, w)
-                            ctx.fail(nm + ':mutates-argument-copy-false',
-                                     '%s(..., copy=False) changed its argument %s (status %s); the exception of C13 covers only the thresholding / weight-conversion utilities' % (nm, changed[0][0], status), w)
+                            ctx.count('mutation_witnesses:' + nm)
+                            if ctx.dist['mutation_witnesses:' + nm] <= 3:
+                                ctx.fail(nm + ':mutates-argument-copy-false',
+                                         '%s(..., copy=False) changed its argument %s (status %s); the exception of C13 covers only the thresholding / weight-conversion utilities' % (nm, changed[0][0], status), w)
                         else:
                             dyn_mut.setdefault(nm, w)
-                            ctx.fail(nm + ':mutates-argument', '%s changed its argument %s (call %s)' % (nm, changed[0][0], status), w)
+                            ctx.count('mutation_witnesses:' + nm)
+                            if ctx.dist['mutation_witnesses:' + nm] <= 3:      # a few witnesses per function are enough
+                                ctx.fail(nm + ':mutates-argument', '%s changed its argument %s (call %s)' % (nm, changed[0][0], status), w)
                     # copy=False contract of the utilities: the result IS the argument
                     if has_copy_false and util and status == 'ok' and isinstance(args[0], np.ndarray):
                         ident = resv is args[0]
